@@ -1431,6 +1431,20 @@ theorem serializable (c : Cfg) (L : Nat) (hwf : WF c L) (eng : Nat → Nat → N
   · exact h hb.2.1
   · rw [hb.2.2] at h; exact absurd h (by simp)
 
+/-! ## lock cells exist before any thread runs -/
+
+theorem locks_allocated (c : Cfg) (progs : Nat → List Op) (ms : Nat) (l : Nat) :
+    (init c progs ms).owner l = 0 ∧ (init c progs ms).current = 0 := ⟨rfl, rfl⟩
+
+theorem enter_lock_same_cell {s s' : LState} {t l : Nat} (h : enterCtx s t (.lock l) = some s') :
+    s.owner l = 0 ∧ s'.owner l = t + 1 ∧ ∀ l', l' ≠ l → s'.owner l' = s.owner l' := by
+  simp only [enterCtx] at h
+  by_cases h0 : s.owner l = 0
+  · simp only [h0, if_true, Option.some.injEq] at h
+    subst h
+    exact ⟨h0, by simp, fun l' hl => by simp [hl]⟩
+  · simp [h0] at h
+
 end C06P
 end Locked
 end TM
